@@ -169,7 +169,7 @@ def continuity_job(n=5):
         for nm, v in zip(('CMLc', 'CMLt', 'AMLc', 'AMLt'), res):
             A.observe(nm, v)
             A.require(A.eq(v, 1), 'beat.continuity.%s(x,x)==1' % nm)
-    return Job('C02', 'beat.continuity[self,%d]' % n, build, body, funcs=['beat.continuity'], bounds=dict(beats=n), timeout_s=3000, solver_timeout_ms=180000)
+    return Job('C02', 'beat.continuity[self,%d]' % n, build, body, funcs=['beat.continuity'], bounds=dict(beats=n), timeout_s=3000, solver_timeout_ms=180000, max_decisions=2000000)
 
 
 def jobs(tier):
